@@ -12,6 +12,8 @@ import (
 	el "github.com/hashicorp/eventlogger"
 	"github.com/hashicorp/eventlogger/formatter_filters/cloudevents"
 	"github.com/hashicorp/eventlogger/simrt"
+	"github.com/hashicorp/eventlogger/sinks/channel"
+	"github.com/hashicorp/eventlogger/sinks/writer"
 )
 
 // Fan-out scenarios: C01 (traversal), C02 (status accounting), C03 (termination).
@@ -23,6 +25,7 @@ func init() {
 	register(&Scenario{Prop: "C02", Name: "status", Run: func(rc *RunCtx) { runFanout(rc, fanOpts{thresholds: true}) }})
 	register(&Scenario{Prop: "C02", Name: "status-cancel", Run: func(rc *RunCtx) { runFanout(rc, fanOpts{thresholds: true, cancel: true}) }})
 	register(&Scenario{Prop: "C03", Name: "terminate", Run: func(rc *RunCtx) { runFanout(rc, fanOpts{cancel: true, small: true}) }})
+	register(&Scenario{Prop: "C03", Name: "stock-sinks", Run: runStockSinksTerminate})
 	register(&Scenario{Prop: "C03", Name: "terminate-stall", Run: func(rc *RunCtx) { runFanout(rc, fanOpts{cancel: true, small: true, stall: true}) }})
 }
 
@@ -1123,5 +1126,120 @@ func runFanoutRendezvous(rc *RunCtx) {
 	}
 	if !returned || reached != k {
 		rc.Failf("C01.traversal", "pipelines-wait-for-each-other", "%d pipelines whose formatters wait for one another (none of them a first node): Send returned=%v (err %v), %d of %d sinks were reached: the pipelines were not traversed independently of each other; %s", k, returned, serr, reached, k, strings.Join(sim.StuckInfo, "; "))
+	}
+}
+
+// ---------------------------------------------------------------- C03 with the library's own sinks
+
+// foreignCtx is a context.Context of a type the standard library does not know: the context
+// package has to watch such a parent from a goroutine of its own whenever a child is derived.
+type foreignCtx struct {
+	context.Context
+	done chan struct{}
+}
+
+func (c *foreignCtx) Done() <-chan struct{} { return c.done }
+func (c *foreignCtx) Err() error {
+	select {
+	case <-c.done:
+		return context.Canceled
+	default:
+		return nil
+	}
+}
+
+type discardWriter struct{}
+
+func (discardWriter) Write(p []byte) (int, error) { return len(p), nil }
+
+// runStockSinksTerminate: Sends through pipelines that end in the library's own sinks (channel sink
+// with a long timeout and a consumer that keeps up, writer sink, FileSink on /dev/null), with
+// contexts of several kinds. Every Send returns; once it has, and the consumer has drained the
+// channel, nothing the Sends started is left -- counted over ALL goroutines of the process, so that
+// goroutines started by the standard library on the library's behalf are seen as well.
+func runStockSinksTerminate(rc *RunCtx) {
+	tp := rc.Tape
+	sim := rc.Sim
+	g0 := simrt.Goroutines()
+	b, _ := el.NewBroker()
+	ch := make(chan *el.Event, 1+tp.Choose(3, "cap"))
+	chSink, err := channel.NewChannelSink(ch, time.Hour)
+	if err != nil {
+		rc.Failf("C03.setup", "", "%v", err)
+		return
+	}
+	b.RegisterNode("json", &el.JSONFormatter{})
+	b.RegisterNode("chan", chSink)
+	b.RegisterNode("w", &writer.Sink{Writer: discardWriter{}})
+	b.RegisterNode("null", &el.FileSink{Path: "/dev/null", FileName: "x"})
+	sinks := []string{"chan", "w", "null"}
+	nP := 1 + tp.Choose(3, "npipes")
+	usesChan := 0
+	var pdesc []string
+	for p := 0; p < nP; p++ {
+		k := sinks[tp.Choose(len(sinks), "sink")]
+		if p == 0 {
+			k = "chan"
+		}
+		if k == "chan" {
+			usesChan++
+		}
+		if err := b.RegisterPipeline(el.Pipeline{PipelineID: el.PipelineID(fmt.Sprintf("p%d", p)), EventType: "t", NodeIDs: []el.NodeID{"json", el.NodeID(k)}}); err != nil {
+			rc.Failf("C03.setup", "", "%v", err)
+			return
+		}
+		pdesc = append(pdesc, "json>"+k)
+	}
+	nSenders := 1 + tp.Choose(3, "nsenders")
+	total := 0
+	returned := 0
+	var kinds []string
+	for s := 0; s < nSenders; s++ {
+		n := 1 + tp.Choose(3, "nsends")
+		kind := []string{"background", "cancelable", "foreign", "foreign", "deadline"}[tp.Choose(5, "ctxkind")]
+		kinds = append(kinds, fmt.Sprintf("%s x%d", kind, n))
+		total += n
+		sim.Spawn(fmt.Sprintf("sender%d", s), func() {
+			for i := 0; i < n; i++ {
+				simrt.Yield("sender:step")
+				ctx := context.Background()
+				cancel := func() {}
+				switch kind {
+				case "cancelable":
+					ctx, cancel = context.WithCancel(ctx)
+				case "deadline":
+					ctx, cancel = context.WithTimeout(ctx, 24*time.Hour)
+				case "foreign":
+					ctx = &foreignCtx{Context: context.Background(), done: make(chan struct{})}
+					simrt.Probe("send.foreign-context-type")
+				}
+				b.Send(ctx, "t", &plainPayload{N: i})
+				returned++
+				cancel() // what a caller does once its call has returned
+			}
+		})
+	}
+	want := total * usesChan
+	got := 0
+	sim.Spawn("consumer", func() {
+		for got < want {
+			simrt.Yield("consumer:step")
+			select {
+			case <-ch:
+				got++
+			default:
+				simrt.Sleep(time.Millisecond, "consumer:idle")
+			}
+		}
+	})
+	rc.Desc = map[string]interface{}{"pipelines": pdesc, "senders": kinds}
+	sim.Run(nil)
+	rc.NonTrivial = true
+	if sim.Stuck || returned != total {
+		rc.Failf("C03.stuck", stuckClass(sim), "%d of %d Sends returned (consumer got %d of %d):\n  %s\n%s", returned, total, got, want, strings.Join(sim.StuckInfo, "\n  "), sim.Deadlock)
+		return
+	}
+	if g1 := simrt.Goroutines(); g1 > g0 {
+		rc.Failf("C03.leak", "goroutines-outside-the-simulator", "every Send has returned, every node invocation is over and the channel is drained, yet the process has %d goroutines more than before the run (contexts: %v): something started on behalf of a Send is still there", g1-g0, kinds)
 	}
 }
